@@ -201,7 +201,7 @@ func Correlation(x, y, weights []float64) float64 {
 		sxx -= xcompensation * xcompensation / float64(len(x))
 		syy -= ycompensation * ycompensation / float64(len(x))
 
-		return (sxy - xcompensation*ycompensation/float64(len(x))) / math.Sqrt(sxx*syy)
+		return (sxy - xcompensation*ycompensation/float64(len(x))) / (math.Sqrt(sxx) * math.Sqrt(syy))
 
 	}
 
@@ -227,7 +227,7 @@ func Correlation(x, y, weights []float64) float64 {
 	sxx -= xcompensation * xcompensation / sumWeights
 	syy -= ycompensation * ycompensation / sumWeights
 
-	return (sxy - xcompensation*ycompensation/sumWeights) / math.Sqrt(sxx*syy)
+	return (sxy - xcompensation*ycompensation/sumWeights) / (math.Sqrt(sxx) * math.Sqrt(syy))
 }
 
 // Kendall returns the weighted Tau-a Kendall correlation between the
